@@ -42,6 +42,12 @@ def run(tier, seed):
         for _ in range(4 if q else 30):
             inst = gen.instantiate(st, rng, lower=rng.choice([0.0, 0.0, 0.5])) + gen.rnd(rng.randint(0, 6), rng)
             recipes.append({"fn": "typing", "cls": cspec, "seq": gen.rotate(corrupt(inst, rng), rng.randrange(len(inst)))})
+        # a well-formed instance carrying one more site of the class's own enzyme (rejected after the structure matched)
+        site = str(cls.cutter.site)
+        for _ in range(3 if q else 12):
+            inst = gen.instantiate(st, rng, runlen=rng.randint(3, 8)) + gen.rnd(rng.randint(0, 9), rng)
+            s2 = tc.with_extra_site(inst, site, rng)
+            recipes.append({"fn": "typing", "cls": cspec, "seq": gen.rotate(s2, rng.randrange(len(s2)))})
         # records shorter than the structure, and the structure without its run
         inst = gen.instantiate(st, rng, runlen=0)
         cut = rng.randrange(1, len(inst))
